@@ -534,6 +534,14 @@ def run_c09(R, tier, rng):
                   py=f"RaggedArray([[{big}, 2.0]] + {nsmall} rows starting with 1.0, dtype='{dt}').sum(axis=0)")
             C.cmp(f"mean(axis=0) {dt}/big+small n={nsmall}", "colmean-precision", True, lambda: [key(float(np.dtype(dt).type(x))) for x in RA(X, dt).mean(axis=0)],
                   lambda: [key(float(np.dtype(dt).type(e / c))) for e, c in zip(exact, cnt)], py=f"RaggedArray([[{big}, 2.0]] + {nsmall} rows of 2.0s, dtype='{dt}').mean(axis=0)")
+    # the column index given as a narrow numpy integer scalar, on a long lazily derived strided array
+    long_rows = [list(range(300)), list(range(1000, 1250)), list(range(5000, 5290)), [7]]
+    for cstep in (2, 3, -2):
+        for j in (np.int8(100), np.uint8(70), np.int16(90), np.int8(0)):
+            exp = [r[::cstep][int(j)] for r in long_rows if len(r[::cstep]) > int(j)]
+            C.cmp(f"get_column_values({type(j).__name__}({int(j)})) on [:, ::{cstep}] of long rows", "get_column_values/narrow-scalar", True,
+                  lambda: np.asarray(RaggedArray(long_rows)[:, ::cstep].get_column_values(j)).tolist(), lambda: exp,
+                  py=f"RaggedArray([range(300), range(1000,1250), range(5000,5290), [7]])[:, ::{cstep}].get_column_values(np.{type(j).__name__}({int(j)}))")
     MIN, MAX = -2 ** 63, 2 ** 63 - 1
     for X in ([[MIN], [1]], [[MIN, 5], [1], [2, -3]], [[MAX], [-1], []], [[MIN + 1, 0], [-1, MAX], [0, -MAX]], [[1], [MIN], [1], [1]]):
         m_ = max(len(r) for r in X)
